@@ -47,14 +47,16 @@ def generate(seed, tier):
             x = rng.random()
             if x < 0.08:
                 ops.append({'op': 'built_in_memory', 'n': rng.randrange(1000), 'edit': rng.choice(['output_value', 'append_output', 'signature', 'drop_input', 'wallet_signs_decoded',
-                                                                                            'wallet_signs_decoded', 'after_failed_id', 'after_failed_id', 'store_roundtrip', 'store_roundtrip'])})
+                                                                                            'wallet_signs_decoded', 'after_failed_id', 'after_failed_id', 'store_roundtrip', 'store_roundtrip',
+                                                                                            'interleaved_serialize', 'interleaved_serialize'])})
             elif x < 0.45:
                 ops.append({'op': 'rewrite', 'type': rng.choice(['block', 'block', 'header', 'summary', 'tx', 'tx', 'input',
                                                                  'output', 'outref', 'evidence', 'sig', 'pubkey', 'coinbasedata',
                                                                  'summary_edge', 'summary_edge', 'tx_many_outputs']),
                             'n': rng.randrange(1000), 'stride': rng.choice([1, 1, 1, 2, 3])})
             else:
-                ops.append({'op': 'message', 'kind': rng.choice(MSG_KINDS), 'a': rng.getrandbits(48), 'n': rng.randrange(0, 130)})
+                n_ = rng.randrange(0, 130) if rng.random() < 0.9 else rng.choice([127, 128, 129, 500, 501, 999, 1000, 1001, 1300])
+                ops.append({'op': 'message', 'kind': rng.choice(MSG_KINDS), 'a': rng.getrandbits(48), 'n': n_})
     else:
         for _ in range(rng.randint(3, 8)):
             ops.append({'op': rng.choice(['relay_rewritten_block', 'relay_rewritten_block', 'submit_rewritten_tx']),
@@ -173,6 +175,39 @@ def run_codec(script, res, trace):
                     res.violate(PROP, 'C07/id-is-not-hash-of-canonical-encoding',
                                 'a transaction decoded unsigned and then signed by the wallet reports id %s; its signed encoding hashes to %s' % (
                                     signed.hash().hex()[:16], sha256d(signed.serialize()).hex()[:16]))
+                    break
+                continue
+            if e == 'interleaved_serialize':
+                # two threads encode at the same time: while this transaction is half-way through its encoding (inside one of its
+                # outputs), the other thread encodes a message of its own; neither result may contain anything of the other
+                from skepticoin.networking import messages as M_
+                other = M_.InventoryMessage([M_.InventoryItem(M_.DATA_BLOCK, sha256d(bytes([j_ % 256]))) for j_ in range(1 + op.get('n', 0) % 7)])
+                want_tx, want_other = tx.serialize(), other.serialize()
+                victim = tx.outputs[op.get('n', 0) % len(tx.outputs)]
+                orig_ss = victim.stream_serialize
+                seen = {}
+
+                def hooked(f_):
+                    if not seen.get('busy') and 'other' not in seen:
+                        seen['busy'] = True
+                        seen['other'] = other.serialize()
+                        seen['id'] = Transaction(list(t0.inputs), list(t0.outputs)).hash()
+                        seen['busy'] = False
+                    return orig_ss(f_)
+                victim.stream_serialize = hooked
+                try:
+                    got_tx = tx.serialize()
+                    got_id = Transaction(list(tx.inputs), list(tx.outputs)).hash()
+                finally:
+                    del victim.stream_serialize
+                res.bump('probe:encodings_interleaved')
+                res.distinct.add('memory:interleaved_serialize')
+                if got_tx != want_tx or seen.get('other') != want_other or got_id != sha256d(want_tx) or seen.get('id') != sha256d(want_tx):
+                    res.violate(PROP, 'C07/id-is-not-hash-of-canonical-encoding',
+                                'two encodings in progress at the same time (one inside the other, as on two threads) disturb each other: '
+                                'transaction bytes %s, other message %s, ids %s' % (
+                                    'changed' if got_tx != want_tx else 'ok', 'changed' if seen.get('other') != want_other else 'ok',
+                                    'changed' if (got_id != sha256d(want_tx) or seen.get('id') != sha256d(want_tx)) else 'ok'))
                     break
                 continue
             if e == 'store_roundtrip':
